@@ -1096,3 +1096,42 @@ func VerifClasses(n int) {
 	verifExpect(out, "C16-bar", "C16/visibility-section-leaks-into-another-class/"+collide, base0+6, "Integer")
 	verifapi.Witness("shape", shape)
 }
+
+// ---- C20: declarations for classes a program never mentions ----
+
+var verifExtraConfigs = []struct{ name, json string }{
+	{"same-short-name-as-user-superclass-in-another-frame", `{"frame": "Other", "class": "Aa", "instance_methods": [{"name": "zork", "arguments": [], "return_type": {"type": ["Int"]}}], "class_methods": []}`},
+	{"same-short-name-as-user-subclass-in-another-frame", `{"frame": "Other", "class": "Bb", "instance_methods": [{"name": "foo", "arguments": [{"type": ["Int"]}], "return_type": {"type": ["String"]}}], "class_methods": []}`},
+	{"unrelated-class-in-builtin-frame", `{"frame": "Builtin", "class": "Zzunrelated", "instance_methods": [{"name": "foo", "arguments": [], "return_type": {"type": ["String"]}}], "class_methods": [{"name": "make", "arguments": [], "return_type": {"type": ["Zzunrelated"]}}]}`},
+	{"unrelated-class-with-extends", `{"frame": "Builtin", "class": "Zzchild", "extends": ["Array"], "instance_methods": [{"name": "first", "arguments": [], "return_type": {"type": ["String"]}}], "class_methods": []}`},
+	{"same-short-name-as-user-module", `{"frame": "Other", "class": "Mm", "instance_methods": [{"name": "mod_m", "arguments": [], "return_type": {"type": ["String"]}}], "class_methods": []}`},
+}
+
+// VerifExtraConfig: the same program is analysed under the core configuration and under the
+// core configuration plus one extra file (loaded by the real loader) that declares a class the
+// program never mentions; diagnostics and -i output must be identical.
+func VerifExtraConfig(n int) {
+	x := verifExtraConfigs[verifapi.Concrete(verifapi.Int("extra", 0, len(verifExtraConfigs)-1))]
+	withI := verifapi.Concrete(verifapi.Int("dash_i", 0, 1))
+	s := verifInstallSym("a")
+	verifapi.WitnessList("Sym.a", verifKN(s.ka))
+	src := "module Mm\ndef mod_m\n1\nend\nend\nclass Aa\ninclude Mm\ndef foo\nSym.a\nend\nend\nclass Bb < Aa\ndef bar\nfoo\nend\nend\n" +
+		"dbtp Bb.new.foo\ndbtp Aa.new.foo\ndbtp Bb.new.bar\ndbtp Bb.new.mod_m\nv = [1].first\ndbtp v\nBb.new.nope\n"
+	flags := cmd.NewExecuteFlags()
+	if withI == 1 {
+		flags.IsDefineInfo = true
+		verifapi.Witness("flags", "-i")
+	}
+	verifapi.Witness("src", src)
+	verifapi.Witness("extra-config", x.json)
+	mark := verifapi.Snapshot()
+	outA := verifRunFlags(src, flags, 0)
+	verifapi.Restore(mark)
+	verifapi.SetFile(".ti-config/zz_extra.json", x.json)
+	verifapi.VfsOnly(".ti-config")
+	builtin.VerifLoadConfigAgain()
+	outB := verifRunFlags(src, flags, 0)
+	verifapi.Reach("ran")
+	verifapi.Classify("C20/output-changed-by-declaration-of-unmentioned-class/" + x.name)
+	verifapi.Assert(outA == outB, "C20-same-output")
+}
